@@ -30,9 +30,15 @@ def run(patch):
             # seeded change: its demonstration must still fail on the canonical form (the rewrite repairs nothing)
             r = subprocess.run(["/venv/bin/python", demo], cwd=d, capture_output=True, text=True, timeout=300)
             return f"demo exit {r.returncode} ({stats})"
+        chk = os.path.join(os.path.dirname(os.path.abspath(patch)), "check.py") if patch else None
+        extra = ""
+        if chk and os.path.exists(chk) and os.environ.get("CHECK"):
+            # benign refactoring: its author's check script must still pass on the canonical form
+            rc = subprocess.run(["/venv/bin/python", chk], cwd=d, capture_output=True, text=True, timeout=300)
+            extra = f" check.py exit {rc.returncode}"
         r = subprocess.run(["/venv/bin/python", "-m", "pytest", "-q", "-p", "no:cacheprovider", "--no-cov", "-x"], cwd=d, capture_output=True, text=True)
         tail = (r.stdout.strip().splitlines() or [""])[-1]
-        return f"suite exit {r.returncode} ({stats}) {tail[:100] if r.returncode else ''}"
+        return f"suite exit {r.returncode}{extra} ({stats}) {tail[:100] if r.returncode else ''}"
     finally:
         shutil.rmtree(d, ignore_errors=True)
 
